@@ -129,7 +129,7 @@ def ser_call(c, endpoints, for_model, idx=None):
 
 def driver_line(scn, endpoints):
     c = scn["cfg"]
-    out = [c["mode"], b01(c["rfc"]), c["type"], b01(c["tls"]), b01(c["resume"]), c["tlsver"], c["verify"], str(len(scn["calls"]))]
+    out = [c["mode"], b01(c["rfc"]), c["type"], b01(c["tls"]), b01(c["resume"]), c["tlsver"][:2], c["verify"], str(len(scn["calls"]))]
     for idx, call in enumerate(scn["calls"]):
         out += ser_call(call, endpoints, False, idx)
     return " ".join(out)
